@@ -98,7 +98,12 @@ class RawClient:
         return self
 
     def send(self, data: bytes):
-        self.sock.sendall(data)
+        # writing to a connection the manager has closed (or after the manager died) is an ordinary client-side
+        # error, never a harness failure; the checks observe the consequences on the manager side
+        try:
+            self.sock.sendall(data)
+        except ConnectionError:
+            self.send_errors = getattr(self, "send_errors", 0) + 1
 
     def fin(self):
         self.gone = True
